@@ -322,9 +322,24 @@ void exec_op(World& w, const Op& op) {
       Held& h = w.held[i];
       jitmodel::SpanInfo& info = w.model.live[h.rx];
       size_t old = info.size;
-      size_t truncate_to = (op.a[1] & 1) ? 1 + size_t(op.a[2]) % old : old;
+      size_t truncate_to = (op.a[1] & 1) ? ((op.a[1] >> 1) % 8 == 0 ? size_t(0) : 1 + size_t(op.a[2]) % old) : old;
       uint64_t stamp = (w.stamp_counter++) << 32;
       uint32_t gran = w.model.cfg.granularity;
+      if (truncate_to == 0) {
+        // Span::shrink(0) inside the callback: nothing is kept - the same as JitAllocator::shrink(span, 0), which releases
+        uintptr_t rx = h.rx;
+        w.model.released(rx);
+        Error err = a.write(h.span, [&](JitAllocator::Span& s) noexcept -> Error { memset(s.rw(), 0x90, s.size()); s.shrink(0); return Error::kOk; });
+        sim::logf("write_fn %#zx (+%zu) truncate=0 -> err=%u size=%zu", size_t(rx), old, unsigned(err), h.span.size());
+        SIM_CHECK(err == Error::kOk, "c09:write-fn-failed", "write(fn) whose callback shrinks the span to 0 failed with error %u", unsigned(err));
+        JitAllocator::Span q;
+        SIM_CHECK(a.query(Out(q), reinterpret_cast<void*>(rx)) != Error::kOk, "c09:write-fn-shrink-zero", "after write(fn) shrank the span to 0 bytes its start is still a live allocation of %zu bytes", q.size());
+        drop_held(w, i);
+        sim::count("c09.probe.write_fn_truncated_to_zero");
+        check_stats(w, "after write(fn) shrank a span to 0");
+        if (w.model.live.empty()) w.model.check_empty_policy("after write(fn) released the last span", false);
+        break;
+      }
       Error err = a.write(h.span, [&](JitAllocator::Span& s) noexcept -> Error {
         uint8_t* p = static_cast<uint8_t*>(s.rw());
         for (size_t off = 0; off + 8 <= s.size(); off += gran) { uint64_t v = stamp + off; memcpy(p + off, &v, 8); }
